@@ -57,6 +57,7 @@ struct Harness {
   uint64_t misuse_expected = 0, misuse_detected = 0;
   uint64_t pc_max_pages = 0, pc_max_accessible = 0, pc_samples = 0;
   struct Watch { uintptr_t p; size_t usable; size_t log_index; uint64_t t_ms; bool dropped; uint64_t rounds_at_free; };
+  size_t tag_orphans_ever = 0;  // blocks that were live in a tagged heap when it was deleted / its thread ended
   size_t orphan_frees = 0;      // blocks of terminated threads (not adopted yet) freed by another thread: such a free may stay pending in the abandoned page
   std::vector<Watch> watch; std::vector<uintptr_t> sentinel_bases; std::vector<uintptr_t> sentinel_alloc_addr;   // sentinel_alloc_addr[i]: 0 for a page free, else the address of the freshly allocated page
   struct Zombie { uint8_t* p; size_t usable; int heap; int prog; bool reissued; };
